@@ -6,7 +6,8 @@ The verdict is rustc's and is obtained by compiling (tools/props/c11.py). What i
 `Model/Ast.lean` (type inference incl. `find_recursions`), `Model/AstGen.lean` (`skeleton`: every
 generated type and action signature, every call of the shift / reduce arms with its arguments;
 `Skel.wellFormed`: names declared once per namespace, references declared, every by-value containment
-cycle broken by Box/Vec, arm arguments of the parameters' types). The skeleton of the model is compared
+cycle broken by Box/Vec, arm arguments of the parameters' types, the two assumptions of the generated Vec
+action bodies). The skeleton of the model is compared
 TEXTUALLY with the items of the generated files on every run, and `Skel.wellFormed` with rustc's verdict.
 
 Proved here: the DFS that places the `Box`es breaks every reference cycle (`C11_box_breaks_cycles`), the
@@ -78,6 +79,20 @@ example : (skeleton (gOptTail true) (typesOf (gOptTail true))).wellFormed = true
 /-- **Finding F13.** `A` with production kind `BP1` and `AB` with its first production both give the
 `ProdKind` variant `ABP1` (rustc: E0428). -/
 theorem C11_counterexample_name_clash : (skeleton gClash (typesOf gClash)).namesDistinct = false := by decide
+
+/-- **Finding F23.** `@vec V: V Num | myItem=Num;`: the body of the single-element action refers to
+`to_snake_case(name)` = `my_item`, the parameter is called `myItem` (rustc: E0425). -/
+theorem C11_counterexample_vec_label :
+    (skeleton gVecLabel (typesOf gVecLabel)).vecLabelsOk = false ∧
+    (skeleton gVecLabel (typesOf gVecLabel)).vecLabels = ["myItem"] := by decide
+
+/-- **Finding F22.** `@vec V: V Num | W | Num; W: KB W | Id;` is taken for a `Vec<Num>` (`ChoiceKind::Ref`
+overwrites `single` in `get_type_kind`): the action of `V: W` builds `vec![w]` from a `W`, and the
+recursive `W` is never visited by `find_recursions` (it is not a reference of `V`'s type), so it is not
+boxed: not sized (rustc: E0308 and E0072). -/
+theorem C11_counterexample_vec_alt :
+    (skeleton gVecAlt (typesOf gVecAlt)).vecAltsOk = false ∧ (skeleton gVecAlt (typesOf gVecAlt)).sized = false := by
+  decide
 
 /-- hence the full statement is false of the code as it is -/
 theorem C11_counterexample_statement : ¬ C11_statement := by
